@@ -9,6 +9,7 @@
 From Coq Require Import List ZArith Bool.
 Import ListNotations.
 From Mos Require Import model.Dap model.DapStep Gen.DapShape spec.DapSpec spec.DapStepSpec proofs.DapProofs proofs.DapStepProofs.
+From Mos Require Import spec.Cpu6502 proofs.Cpu6502Proofs spec.DapCpu proofs.DapCpuProofs.
 Open Scope Z_scope.
 
 (* Current adapter: in every reachable state in which Stopped(p) is published and the session is not in the middle of
@@ -206,6 +207,35 @@ Theorem C19_stepout_dirty_refuted :
 Proof. exact stepout_dirty_refuted. Qed.
 Print Assumptions C19_stepout_dirty_refuted.
 
+(* ---- the concrete CPU: the run of the 6502 of spec/Cpu6502.v (the machine C18 validates against emulator_6502) from any
+   well-formed state c0, e.g. `cpu_init pc (load_program start bytes)`.  `returns_to_caller`, the hypothesis of the
+   pinned-runner theorems and the link between "where the call returns" and "the instruction after the call", is a theorem
+   there for every disciplined call (spec/DapCpu.v: no SP/PC wrap at the JSR; until the return SP stays at or below the
+   frame, no TXS, stores into the stack page only by pushing; the RTS executes with the SP the JSR left) -- each clause a
+   decidable condition on the run. *)
+Theorem C19_returns_to_caller_6502 : forall (c0 : cpu), wf_state c0 -> forall c j : Z,
+  returns_at (op6502 c0) c j -> disciplined_call c0 c j -> pc6502 c0 j = pc6502 c0 c + 3.
+Proof. exact returns_to_caller_6502. Qed.
+Print Assumptions C19_returns_to_caller_6502.
+
+(* `next` treats the call as one step and lands on the instruction after it *)
+Theorem C19_next_over_call_6502 : forall (c0 : cpu), wf_state c0 -> forall (fuel : nat) (i j : Z),
+  returns_at (op6502 c0) i j -> disciplined_call c0 i j ->
+  (forall m, i <= m < j -> finT (op6502 c0) m = false) ->
+  (Z.to_nat (j - i) <= fuel)%nat ->
+  step_over (op6502 c0) fuel i = Some j /\ pc6502 c0 j = pc6502 c0 i + 3.
+Proof. exact next_over_call_6502. Qed.
+Print Assumptions C19_next_over_call_6502.
+
+(* `stepOut` runs to the instruction after the call of the current frame *)
+Theorem C19_stepout_after_call_6502 : forall (c0 : cpu), wf_state c0 -> forall (fuel : nat) (c i j : Z),
+  frame_call (op6502 c0) c i -> returns_at (op6502 c0) c j -> disciplined_call c0 c j ->
+  (forall m, i <= m < j -> finT (op6502 c0) m = false) ->
+  (Z.to_nat (j - i) <= fuel)%nat ->
+  step_out (op6502 c0) fuel i = Some j /\ pc6502 c0 j = pc6502 c0 c + 3.
+Proof. exact stepout_after_call_6502. Qed.
+Print Assumptions C19_stepout_after_call_6502.
+
 (* the model's event table is the one translated from DebugSession::handle_machine_event *)
 Theorem C19_event_table : forall e : mevent, event_of e = gen_event_of e.
 Proof. exact event_table_ok. Qed.
@@ -253,3 +283,9 @@ Example C19_example_self_loop_repaired :
   end /\
   bp_ok Z (fun _ => 7) Z.succ (fun _ => false) Z.succ Z.succ true StateHeld tr (init 0) false = true.
 Proof. vm_compute. repeat split; reflexivity. Qed.
+
+(* the 6502 theorems are not vacuous: corpus/C19/stepout_after_pha.asm on the specified CPU (proofs/DapCpuProofs.v) *)
+Example C19_example_disciplined_call :
+  returns_at (op6502 w_cpu) 2 7 /\ disciplined_call w_cpu 2 7 /\ frame_call (op6502 w_cpu) 2 4 /\
+  pc6502 w_cpu 7 = pc6502 w_cpu 2 + 3 /\ step_over (op6502 w_cpu) 100 2 = Some 7 /\ step_out (op6502 w_cpu) 100 4 = Some 7.
+Proof. exact disciplined_witness. Qed.
